@@ -512,21 +512,24 @@ def removePbcArr (c : Consts) (a : Arr) (box : BoxArg) : Res Arr :=
     else .unmodelled
   | _, _ => .unmodelled
 
-/-- `remove_pbc` for one model whose molecules are given as ascending index lists: every
-molecule is reassembled by `remove_pbc_from_coord`, then translated so that its centroid lies
-in the box. Returns the new coordinates of the whole array. -/
+/-- One iteration of the molecule loop of `remove_pbc`: the coordinates at the (ascending, not necessarily
+contiguous) array positions `mol` are reassembled by `remove_pbc_from_coord` on THEIR OWN sequence, then translated
+so that their centroid lies in the box; every other coordinate is left alone. -/
+def removePbcStep (c : Consts) (b : Box) (cur : List Vec) (mol : List Nat) : Except DispErr (List Vec) := do
+  let sub := mol.filterMap (fun i => cur[i]?)
+  let san ← removePbcFromCoord c sub b
+  match centroid san with
+  | none => pure cur
+  | some ctr =>
+    match moveInside1 c ctr b with
+    | none => .error .singular
+    | some ctrIn =>
+      let moved := san.map (fun p => p.add (ctrIn.sub ctr))
+      pure ((List.zip mol moved).foldl (fun acc p => acc.set p.1 p.2) cur)
+
+/-- `remove_pbc` for one model whose molecules are given as ascending index lists. -/
 def removePbcMolecules (c : Consts) (xs : List Vec) (mols : List (List Nat)) (b : Box) :
     Except DispErr (List Vec) :=
-  mols.foldlM (init := xs) fun cur mol => do
-    let sub := mol.filterMap (fun i => cur[i]?)
-    let san ← removePbcFromCoord c sub b
-    match centroid san with
-    | none => pure cur
-    | some ctr =>
-      match moveInside1 c ctr b with
-      | none => .error .singular
-      | some ctrIn =>
-        let moved := san.map (fun p => p.add (ctrIn.sub ctr))
-        pure ((List.zip mol moved).foldl (fun acc p => acc.set p.1 p.2) cur)
+  mols.foldlM (removePbcStep c b) xs
 
 end BiotiteModel.C15
